@@ -31,7 +31,7 @@ def pyGet? {α : Type} (l : List α) (i : Int) : Option α :=
   else l[i.toNat]?
 
 section Scalar
-variable {R : Type} [Add R] [Sub R] [Mul R] [Neg R] [LT R] [DecidableLT R] [LE R] [DecidableLE R]
+variable {R : Type} [Add R] [Sub R] [Mul R] [Div R] [Neg R] [LT R] [DecidableLT R] [LE R] [DecidableLE R]
   [BEq R] [OfNat R 0] [OfNat R 2]
 
 /-- `numpy.absolute` on a scalar (NaN stays NaN; the sign of zero is not observable through `<=`) -/
@@ -77,6 +77,22 @@ structure View (R : Type) where
   tTime : R
   tPerf : R
   tProc : R
+  /-- `getattr(inst, 'gradient', [None])[-1] is None`: the solver supplies no gradient (no mystic solver does) -/
+  gradNone : Bool := false
+  /-- `inst._cost[1]`: the RAW cost function (`none`: the solver has no `_cost`, AttributeError) -/
+  cost : Option (List R → R) := none
+  /-- `inst._stepmon`'s parameter history (what the collapse detectors read), oldest first -/
+  steps : List (List R) := []
+
+/-- `norm` of `GradientNormTolerance` = `p` of `Lnorm` (math/distance.py l.13-37).  The power and the root of a
+finite `p` are carried as operations (`powp x = x**p`, `root s = s**(1./p)`), `raises w` says whether evaluating
+`sum(abs(w**p))**(1./p)` under `seterr(over='raise', invalid='raise')` raises FloatingPointError (never, in exact
+arithmetic); the count of `p = 0` is cast by `cast`. -/
+inductive Norm (R : Type) where
+  | zero (cast : Nat → R)                                   -- l.26-27 `not p`: number of non-zero entries
+  | inf                                                     -- l.28-29
+  | neginf                                                  -- l.30-31: BUILTIN `min(abs(w), axis=axis)`: TypeError
+  | fin (powp root : R → R) (raises : List R → Bool)        -- l.32-38
 
 /-- the primitive conditions with their keyword settings (what the doc string reports) -/
 inductive Prim (R : Type) where
@@ -89,6 +105,7 @@ inductive Prim (R : Type) where
   | vtrcog (ftol gtol : R) (gens : Option Int) (tgt : R)          -- l.320
   | popspread (tol : R)                                           -- l.344
   | gradnorm (tol : R)                                            -- l.363, `norm = inf`, gradient supplied
+  | gradnormP (tol : R) (norm : Norm R) (eps : R)                 -- l.363-383, any `norm`; gradient or `approx_fprime`
   | evallimits (gens evals : Option Int)                          -- l.386
   | timelimits (seconds : R) (system : Option Bool) (s0 s1 s2 : R) -- l.413, `start` for the 3 timers
   | interrupt                                                     -- l.439
@@ -98,7 +115,7 @@ inductive POut where
   deriving DecidableEq, Repr
 
 inductive Err where
-  | index | value
+  | index | value | type | attr
   deriving DecidableEq, Repr
 
 /-- `gens = 0 if generations is None else int(generations)` (l.211) -/
@@ -132,6 +149,61 @@ def popspreadAll (tol : R) (pop : List (List R)) : Bool :=
   | [] => true
   | x0 :: _ => pop.all (fun row => (List.zipWith (fun a b => decide (absR (a - b) ≤ absR (tol * b))) row x0).all id)
 
+/-- `numpy.array(rows)` of a ragged list of rows is a ValueError (inhomogeneous shape, numpy >= 1.24) -/
+def ragged (rows : List (List R)) : Bool :=
+  match rows with
+  | [] => false
+  | r :: rest => !(rest.all (fun q => q.length == r.length))
+
+/-- `best - trial` broadcasts only equal trailing lengths or a length of 1 (otherwise ValueError) -/
+def noBroadcast (best : List R) (trial : List (List R)) : Bool :=
+  match trial with
+  | [] => false
+  | r :: _ => !(best.length == r.length || best.length == 1 || r.length == 1)
+
+/-- `xk + ei` with `ei[k] = epsilon`, `0.0` elsewhere (_scipy060optimize.py l.614-618) -/
+def bump (x : List R) (k : Nat) (eps : R) : List R := x.mapIdx (fun j xj => xj + (if j = k then eps else 0))
+
+/-- `approx_fprime(xk, f, epsilon)` (_scipy060optimize.py l.611-619): forward differences -/
+def approxFprime (f : List R → R) (x : List R) (eps : R) : List R :=
+  (List.range x.length).map (fun k => (f (bump x k eps) - f x) / eps)
+
+/-- the points at which `approx_fprime` evaluates `f`, in order: `f0 = f(xk)` first, then one per coordinate.
+`GradientNormTolerance` passes the RAW cost `inst._cost[1]` (l.373): these `len(x)+1` evaluations are not counted
+in `_fcalls` and not seen by the evaluation monitor (finding F11). -/
+def approxPoints (x : List R) (eps : R) : List (List R) :=
+  x :: (List.range x.length).map (fun k => bump x k eps)
+
+/-- l.370-374: the solver's last gradient, else the finite-difference gradient of the raw cost at `bestSolution` -/
+def gradOf (v : View R) (eps : R) : Except Err (List R) :=
+  if v.gradNone = true then
+    match v.cost with
+    | none => .error .attr
+    | some f => .ok (approxFprime f v.best eps)
+  else .ok v.grad
+
+/-- `max(abs(weights), axis=0)` (`none` = zero-size reduction) -/
+def lnormInf (w : List R) : Except Err R :=
+  match npMax? (w.map absR) with
+  | some m => .ok m
+  | none => .error .value
+
+/-- `Lnorm(weights, p, axis=0)` on a 1-D array (math/distance.py l.24-38) -/
+def lnorm (n : Norm R) (w : List R) : Except Err R :=
+  match n with
+  | .zero cast => .ok (cast (w.filter (fun x => (x == 0) = false)).length)      -- l.27 `sum(weights != 0.0)`
+  | .inf => lnormInf w                                                           -- l.29
+  | .neginf => .error .type                                                      -- l.31
+  | .fin powp root raises =>
+      if raises w = true then lnormInf w                                         -- l.35-36 `except FloatingPointError`
+      else .ok (root (addReduce (w.map (fun x => absR (powp x)))))               -- l.34
+
+/-- l.370-380: `gnorm`, or the exception on the way -/
+def gnormOf (v : View R) (n : Norm R) (eps : R) : Except Err R :=
+  match gradOf v eps with
+  | .error e => .error e
+  | .ok g => lnorm n g
+
 /-- the exception a primitive raises on a malformed view (`none`: it returns) -/
 def Prim.err (v : View R) : Prim R → Option Err
   | .cog _ g => if v.hist.length = 0 then none else if (v.hist.length : Int) ≤ gensOf g then none
@@ -144,12 +216,19 @@ def Prim.err (v : View R) : Prim R → Option Err
       else none
   | .vtrcog _ _ g _ => if v.hist.length = 0 then none
       else if (v.hist.length : Int) > gensOf g ∧ (window v.hist (gensOf g)).isNone then some .index else none
-  | .crt _ _ => if v.popE.length < 2 then none
+  | .crt _ _ => if ragged v.pop = true then some .value    -- l.250 `numpy.array(inst.population)`
+      else if v.popE.length < 2 then none
       else if v.pop.length = 0 then some .index            -- `sim[0]`
       else if (crtDiffs v.pop).length = 0 then some .value -- `max([])`
       else none
-  | .popspread _ => if v.pop.length = 0 then some .index else none                      -- `sim[0]`
+  | .popspread _ => if ragged v.pop = true then some .value                             -- l.353
+      else if v.pop.length = 0 then some .index else none                               -- `sim[0]`
+  | .solimp _ => if v.trial2d = true ∧ ragged v.trial = true then some .value           -- l.279
+      else if noBroadcast v.best v.trial = true then some .value else none              -- l.280
   | .gradnorm _ => if v.grad.length = 0 then some .value else none                      -- `numpy.max([])`
+  | .gradnormP _ n eps => match gnormOf v n eps with
+      | .error e => some e
+      | .ok _ => none
   | _ => none
 
 /-- does `a <= b` hold for an optional left side (`none` never arises when `Prim.err = none`) -/
@@ -217,6 +296,10 @@ def Prim.test (v : View R) : Prim R → Bool
           || decide (absR (last - tgt) ≤ ftol)                            -- l.339
   | .popspread tol => popspreadAll tol v.pop                              -- l.358
   | .gradnorm tol => leOpt (npMax? (v.grad.map absR)) tol                 -- l.380-381
+  | .gradnormP tol n eps =>
+      match gnormOf v n eps with
+      | .ok g => decide (g ≤ tol)                                         -- l.381
+      | .error _ => false
   | .evallimits gens evals => geLim v.fcalls evals || geLim v.gens gens   -- l.404
   | .timelimits seconds system s0 s1 s2 =>                                -- l.422-433
       match system with
@@ -306,7 +389,7 @@ def dedupAtoms : List Atom → List Atom
   | a :: l => if a ∈ dedupAtoms l then dedupAtoms l else a :: dedupAtoms l
 
 section Eval
-variable [Add R] [Sub R] [Mul R] [Neg R] [LT R] [DecidableLT R] [LE R] [DecidableLE R]
+variable [Add R] [Sub R] [Mul R] [Div R] [Neg R] [LT R] [DecidableLT R] [LE R] [DecidableLE R]
   [BEq R] [OfNat R 0] [OfNat R 2]
 
 mutual
@@ -413,7 +496,7 @@ def Expr.builds : List (Expr R) → List (Cond R)
 end
 
 section Den
-variable [Add R] [Sub R] [Mul R] [Neg R] [LT R] [DecidableLT R] [LE R] [DecidableLE R]
+variable [Add R] [Sub R] [Mul R] [Div R] [Neg R] [LT R] [DecidableLT R] [LE R] [DecidableLE R]
   [BEq R] [OfNat R 0] [OfNat R 2]
 
 mutual
@@ -450,6 +533,7 @@ end Den
 
 inductive PKind where
   | vtr | cog | ncog | crt | solimp | nct | vtrcog | popspread | gradnorm | evallimits | timelimits | interrupt
+  | gradnormP
   deriving DecidableEq, Repr
 
 /-- a keyword value as it appears in the doc dict -/
@@ -458,11 +542,13 @@ inductive SVal (R : Type) where
   | int (i : Option Int)      -- `generations` / limits (`None` allowed)
   | oflt (r : Option R)       -- `fval`
   | obool (b : Option Bool)   -- `system`
+  | norm (n : Norm R)         -- `norm`
 
 /-- `termination.type(c)`: the factory, found by name -/
 def Prim.kind : Prim R → PKind
   | .vtr .. => .vtr | .cog .. => .cog | .ncog .. => .ncog | .crt .. => .crt | .solimp .. => .solimp
   | .nct .. => .nct | .vtrcog .. => .vtrcog | .popspread .. => .popspread | .gradnorm .. => .gradnorm
+  | .gradnormP .. => .gradnormP
   | .evallimits .. => .evallimits | .timelimits .. => .timelimits | .interrupt => .interrupt
 
 /-- `termination.state(c)[doc]`: the keyword dict in the doc string, in the order the code writes it -/
@@ -476,6 +562,7 @@ def Prim.state : Prim R → List (String × SVal R)
   | .vtrcog ftol gtol g tgt => [("ftol", .num ftol), ("gtol", .num gtol), ("generations", .int g), ("target", .num tgt)]
   | .popspread tol => [("tolerance", .num tol)]
   | .gradnorm tol => [("tolerance", .num tol)]
+  | .gradnormP tol n _ => [("tolerance", .num tol), ("norm", .norm n)]
   | .evallimits g e => [("generations", .int g), ("evaluations", .int e)]
   | .timelimits s sys _ _ _ => [("seconds", .num s), ("system", .obool sys)]
   | .interrupt => []
@@ -488,6 +575,8 @@ def kwOFlt (kw : List (String × SVal R)) (k : String) : Option (Option R) :=
   match kw.lookup k with | some (.oflt r) => some r | _ => none
 def kwOBool (kw : List (String × SVal R)) (k : String) : Option (Option Bool) :=
   match kw.lookup k with | some (.obool b) => some b | _ => none
+def kwNorm (kw : List (String × SVal R)) (k : String) : Option (Norm R) :=
+  match kw.lookup k with | some (.norm n) => some n | _ => none
 
 /-- `factory(**kwds)`: keyword call of the factory named by `kind` (all keywords supplied, as `state` reports
 them); `eta` is the factory's own constant, `(s0,s1,s2)` the timer readings at construction -/
@@ -502,6 +591,7 @@ def Prim.make (k : PKind) (kw : List (String × SVal R)) (eta s0 s1 s2 : R) : Op
   | .vtrcog => do pure (.vtrcog (← kwNum kw "ftol") (← kwNum kw "gtol") (← kwInt kw "generations") (← kwNum kw "target"))
   | .popspread => do pure (.popspread (← kwNum kw "tolerance"))
   | .gradnorm => do pure (.gradnorm (← kwNum kw "tolerance"))
+  | .gradnormP => do pure (.gradnormP (← kwNum kw "tolerance") (← kwNorm kw "norm") eta)
   | .evallimits => do pure (.evallimits (← kwInt kw "generations") (← kwInt kw "evaluations"))
   | .timelimits => do pure (.timelimits (← kwNum kw "seconds") (← kwOBool kw "system") s0 s1 s2)
   | .interrupt => some .interrupt
